@@ -23,13 +23,24 @@ def parseROp (t : String) : Option Op :=
 def parseROps (s : String) : List (Option Reader.Op) :=
   if s == "-" then [] else (s.splitOn ",").map parseROp
 
+/-- FNV-1a, 64 bit (machine arithmetic: windows of the scale family are several MiB). -/
+def fnv64 (bs : Bytes) : Nat :=
+  (bs.foldl (fun (h : UInt64) b => (h ^^^ b.toUInt64) * 0x100000001b3) 0xcbf29ce484222325).toNat
+
+def hex16r (n : Nat) : String :=
+  String.ofList ((List.range 16).reverse.map fun i => hexDigit ((n / 16 ^ i) % 16))
+
+/-- Window text: hex when short, `#<len>:<fnv-1a 64>` otherwise (as in the harness). -/
+def winhex (w : Bytes) : String :=
+  if w.length ≤ 64 then hex w else s!"#{w.length}:{hex16r (fnv64 w)}"
+
 /-- Canonical text of a result, as printed by the Rust harness for the same op. -/
 def showRes (op : Reader.Op) : Reader.Res → String
   | .panic => "panic"
   | .unit => "ok"
   | .bytes b => match op with
       | .request _ => "ok"
-      | _ => hex b
+      | _ => winhex b
   | .byte none => "none"
   | .byte (some b) => s!"some:{b.toNat}"
   | .bool b => match op with
@@ -39,16 +50,6 @@ def showRes (op : Reader.Op) : Reader.Res → String
 def runROp (r : Reader) : Option Reader.Op → String × Reader
   | none => ("bad-op", r)
   | some op => let (res, r') := op.run r; (showRes op res, r')
-
-def fnv64 (bs : Bytes) : Nat :=
-  bs.foldl (fun h b => ((h ^^^ b.toNat) * 0x100000001b3) % 18446744073709551616) 0xcbf29ce484222325
-
-def hex16r (n : Nat) : String :=
-  String.ofList ((List.range 16).reverse.map fun i => hexDigit ((n / 16 ^ i) % 16))
-
-/-- Window text: hex when short, `#<len>:<fnv-1a 64>` otherwise (as in the harness). -/
-def winhex (w : Bytes) : String :=
-  if w.length ≤ 64 then hex w else s!"#{w.length}:{hex16r (fnv64 w)}"
 
 def obsReader (res : String) (r : Reader) : String :=
   s!"{res}|{winhex r.window}|{r.position}|{r.mark}|{b2s r.isComplete}{b2s r.isAtEnd}{b2s r.ioError}|{r.src.calls}|{r.src.afterEnd}"
